@@ -5,7 +5,7 @@
 set -u
 sd=$(readlink -f $1); shift
 checks="$@"
-name=$(basename $(dirname $sd))-$(basename $sd)
+name=$(echo $sd | tr -c "A-Za-z0-9\n" "-" | sed -e "s/^-*//" -e "s/tmp-//")
 wt=/tmp/wt-seeded-$name
 . /verif/lib/env.sh
 git -C /repo worktree remove --force $wt 2>/dev/null
